@@ -295,11 +295,16 @@ def _cuckoo_case(case, ctx):
     h = K.load_error_rate(e, path)
     ctx.check("C07.cuckoo", (h.fingerprint_size_bits, h.bucket_size, h.capacity) == (bits, b, 3), "load_error_rate geometry")
     ctx.check("C07.cuckoo", h.check("some key") and g.check("some key"), "key lost through reload with same error rate")
-    # byte-sized constructor: the reported rate is the formula of its width
+    # byte-sized constructor: the reported rate is the formula of its width, and handing that reported rate back on reload
+    # (the only way to re-supply the width through frombytes / load_error_rate) reproduces the width exactly
     fs = 1 + (bits % 4)
-    k = K(capacity=3, bucket_size=b, finger_size=fs)
-    ctx.check("C07.cuckoo", abs(k.error_rate - 2 * b / 2 ** (8 * fs)) <= 1e-9 * k.error_rate,
-              lambda: f"finger_size={fs} b={b}: error_rate {k.error_rate!r} != {2*b/2**(8*fs)!r}")
+    for bb in (b, b * 3, b * 6 + 1, 43, 48):
+        k = K(capacity=2, bucket_size=bb, finger_size=fs)
+        ctx.check("C07.cuckoo", abs(k.error_rate - 2 * bb / 2 ** (8 * fs)) <= 1e-9 * k.error_rate,
+                  lambda: f"finger_size={fs} b={bb}: error_rate {k.error_rate!r} != {2*bb/2**(8*fs)!r}")
+        g2 = K.frombytes(bytes(k), error_rate=k.error_rate)
+        ctx.check("C07.cuckoo", g2.fingerprint_size_bits == 8 * fs and g2.bucket_size == bb,
+                  lambda: f"finger_size={fs} bucket_size={bb}: reload with the filter's own error_rate {k.error_rate!r} gives {g2.fingerprint_size_bits} bits")
     ctx.feat("cuckoo_bits=%s" % (bits if bits < 9 else "9-16" if bits < 17 else "17-32"))
     ctx.nt()
     ctx.op(case["cls"], e, b, bits)
